@@ -6,13 +6,25 @@
 (* database (not from urwid's calc_width).  The last event of a trace compares the reported   *)
 (* sizing() with the documented rules of WidgetTreeOps; a mismatch there is a DIVERGENCE      *)
 (* ("div_" prefix), not a violation.                                                          *)
+(*                                                                                            *)
+(* Histories ("frames").  The property is about every rendering, not only the first one on a  *)
+(* fresh canvas cache: a screen holds the canvas of the last frame, so widgets are rendered   *)
+(* again while earlier canvases are alive.  Event "frame" is a rendering made WITHOUT         *)
+(* clearing the canvas cache, of the root (op root / again / inval = after _invalidate()) or  *)
+(* of the sub-widget at `path` at a size and focus flag its parent gave it (op sub); it is    *)
+(* judged by the same sentences, in a mode the rendered widget itself reports (szg).  The     *)
+(* state variable `held` remembers, per event, the canvas a rendering returned; event "held"  *)
+(* measures that canvas again after the later renderings: a canvas that was handed out is     *)
+(* never changed by rendering something else (clause held_canvas_keeps_its_size).             *)
 EXTENDS WidgetTreeOps, Json, IOUtils, TLC
 
 Traces == JsonDeserialize(IOEnv.TRACE_FILE)
-VARIABLES tid, l, ok, why
-vars == <<tid, l, ok, why>>
+VARIABLES tid, l, ok, why,
+          held          \* history traces: held[i] is the canvas returned by event i of the trace (NoCanvas when it returned none)
+vars == <<tid, l, ok, why, held>>
 
-Init == tid \in 1..Len(Traces) /\ l = 0 /\ ok = TRUE /\ why = "-"
+NoCanvas == [cc |-> -1, cr |-> -1, widths |-> <<>>, cur |-> <<>>]
+Init == tid \in 1..Len(Traces) /\ l = 0 /\ ok = TRUE /\ why = "-" /\ held = <<>>
 
 Width(row) == SumSeq(row)
 ASSUME Width(<<1, 2, 0, 1>>) = 4 /\ Width(<<>>) = 0
@@ -34,8 +46,36 @@ RenderVerdict(e) ==
   ELSE IF Len(e.cur) = 2 /\ ~(e.cur[1] >= 0 /\ e.cur[1] < e.cc /\ e.cur[2] >= 0 /\ e.cur[2] < e.cr) THEN "cursor_inside"
   ELSE "-"
 
-Verdict(tr, e) ==
-  IF e.t = "sizing" THEN (IF SetOf(e.got) # Ann(tr.term).s THEN "div_sizing_as_documented" ELSE "-")
+RowWidths(content) == [i \in 1..Len(content) |-> Width(content[i])]
+CanvasOf(e) == IF e.t = "frame" /\ e.exc = "" THEN [cc |-> e.cc, cr |-> e.cr, widths |-> RowWidths(e.content), cur |-> e.cur]
+               ELSE NoCanvas
+ASSUME RowWidths(<< <<1, 2>>, <<>>, <<0, 1>> >>) = <<3, 0, 1>>
+
+RECURSIVE Sub(_, _)
+Sub(t, path) == IF Len(path) = 0 THEN t ELSE Sub(t.c[Head(path)], Tail(path))
+FrameOps == {"root", "sub", "again", "inval"}
+
+\* a rendering inside a history: the root's are judged like first renderings; a sub-widget is judged in the modes it reports itself
+FrameVerdict(tr, e) ==
+  IF e.op \notin FrameOps \/ (e.op # "sub" /\ Len(e.path) # 0) THEN "no_action"
+  ELSE IF e.mode \notin SetOf(e.szg) THEN "-"
+  ELSE LET v == RenderVerdict(e) IN
+       IF v # "-" /\ e.mode \in OverClaimed(Ann(Sub(tr.term, e.path))) THEN v \o "@overclaimed" ELSE v
+
+\* a canvas handed out earlier in the history, measured again: same size, same row widths, same cursor
+HeldVerdict(e, hs) ==
+  IF ~(e.ref >= 1 /\ e.ref <= Len(hs)) \/ hs[e.ref] = NoCanvas THEN "no_action"
+  ELSE IF e.exc # "" \/ e.cc # hs[e.ref].cc \/ e.cr # hs[e.ref].cr \/ RowWidths(e.content) # hs[e.ref].widths \/ e.cur # hs[e.ref].cur
+    THEN "held_canvas_keeps_its_size"
+  ELSE "-"
+
+Skipped(e) == "skip" \in DOMAIN e /\ e.skip = 1     \* continuation after a known finding: already reported, only updates the state
+
+Verdict(tr, e, hs) ==
+  IF Skipped(e) THEN "-"
+  ELSE IF e.t = "frame" THEN FrameVerdict(tr, e)
+  ELSE IF e.t = "held" THEN HeldVerdict(e, hs)
+  ELSE IF e.t = "sizing" THEN (IF SetOf(e.got) # Ann(tr.term).s THEN "div_sizing_as_documented" ELSE "-")
   ELSE IF e.t = "render" THEN
          LET v == RenderVerdict(e) IN
          \* label rejections in a mode the documented rules say a child cannot be used in (sizing() over-claims)
@@ -43,7 +83,9 @@ Verdict(tr, e) ==
   ELSE "no_action"
 
 Step == /\ ok /\ l < Len(Traces[tid].ev) /\ l' = l + 1 /\ tid' = tid
-        /\ LET v == Verdict(Traces[tid], Traces[tid].ev[l + 1]) IN why' = v /\ ok' = (v = "-")
+        /\ LET e == Traces[tid].ev[l + 1]
+               v == Verdict(Traces[tid], e, held)
+           IN why' = v /\ ok' = (v = "-") /\ held' = (IF e.t \in {"frame", "held"} THEN Append(held, CanvasOf(e)) ELSE held)   \* a history holds only these events
 Spec == Init /\ [][Step]_vars
 Report == ok \/ PrintT(<<"REJECT", tid, l, why>>)
 ===============================================================================
